@@ -5,6 +5,24 @@ HERE = os.path.dirname(os.path.dirname(os.path.abspath(__file__)))
 
 # id -> (technique, level text, level note, design section)
 CHECKS = {
+ "C10": ("model-based property testing: generated request/advance histories compared with a reference cache kept as a set of worlds; every inner response carries a fresh serial",
+         "Generated search over policy, size, TTL, private/cloned/shared stores and histories up to 80/500 operations with overlapping misses and reads exactly at the TTL; each observation (inner called or not, value returned) prunes the worlds, a violation needs all worlds to disagree. Exploration.",
+         "Worlds cover LFU ties, expired-entry purging, exact-TTL reads and whether LFU counts updates; cases whose world set exceeds 4000 are cut short (classified, not violations).", "5/C10"),
+ "C11": ("property-based testing: generated concurrent histories with leader/waiter cancellation and panics in the deterministic simulator; invariants over the event log",
+         "Generated search over arrivals on 3 keys/3 clones, leader scripts incl. panic and never, cancellations of leaders and waiters and poll orders; per-key single flight, shared serial, prompt LeaderCancelled, key freed, nobody pending at the horizon. Exploration.",
+         "Busy-waking waiters are polled at most 3 fruitless times per instant.", "5/C11"),
+ "C16": ("property-based testing: generated outcome scripts x reconnect configurations under a virtual clock; reference reading of the script",
+         "Generated search over max_attempts (incl. 0 and unlimited), policies, retry flag, predicate and sequential requests; bounded calls, retries only after accepted errors, policy delay, first success / last error identity, published state. Exploration.",
+         "ReconnectError is not exported: payload identity through Display; either delay indexing convention accepted.", "5/C16"),
+ "C17": ("property-based testing with exhaustive enumeration of the finite part: every generated payload case runs the complete strategy x predicate x outcome grid against a pure reference function",
+         "84-cell grid enumerated completely per case, payloads (request, value, error codes) generated so every value is distinguishable; counters prove the strategy/backup is not invoked for successes and refused errors. Exploration with an exhaustively enumerated configuration grid.",
+         "One request per cell.", "5/C17"),
+ "C18": ("model-based property testing: generated check-result scripts folded through the statement's threshold machine, compared with the published statuses; generated selection bursts",
+         "Generated search over thresholds, intervals, timeouts, 1-5 resources, selection strategies and scripts with unknown and timed-out checks; the model is folded over the checks the scripted checker actually served. Exploration.",
+         "Statuses compared only when no check is in progress; custom selectors may decline.", "5/C18"),
+ "C19": ("property-based testing: metamorphic relation between equally seeded services plus bound/identity predicates, under a virtual clock",
+         "Generated search over seeds, rate extremes, latency ranges incl. equal and reversed bounds and request bursts; three equally seeded services must produce identical decision/latency sequences; injected errors skip inner; latencies within bounds. Exploration.",
+         "Same first-poll order on the compared services; injection events observed through the layer's listener and cross-checked against inner start instants.", "5/C19"),
  "C05": ("property-based testing: generated outcome scripts x retry configurations in the simulator; reference reading of the script plus logged budget/backoff decisions",
          "Generated search over max_attempts, backoff policies, predicates, budgets and 1-4 concurrent requests sharing a budget; the oracle recomputes from the script what the layer may do and checks attempts, stop reason, result identity, backoff gaps and budget grants. Exploration.",
          "Budget and interval decisions are observed through logging wrappers around the real implementations; longer waits than the backoff are allowed.", "5/C05"),
